@@ -77,6 +77,15 @@ Definition pair_gray (c : jcase) (l r : row) : bool :=
                gray m (j_op c) (j_t c) (toks_of l) (toks_of r)
   | _ => false
   end.
+(* gray for the pipeline of C07: the comparison on the score apply_matcher computes
+   (matcher_raw_score: order-sensitive exact-match shortcut) and the comparison on the join's
+   rounded score disagree (J/C/D joins only) *)
+Definition pair_gray_pipe (c : jcase) (l r : row) : bool :=
+  match j_entry c with
+  | EJoin m => is_jcd m && present l && present r && negb (both_empty l r) &&
+               gray_pipe m (j_op c) (j_t c) (toks_of l) (toks_of r)
+  | _ => false
+  end.
 Definition row_excluded (cs : list jcase) (o : out_row) : bool :=
   existsb (fun c => match row_pair c o with
                     | Some (l, r) => (present l && present r && both_empty l r) || pair_gray c l r
@@ -152,8 +161,15 @@ Definition partition_spec (c : jcase) (obs_ge obs_gt obs_eq : list out_row) : bo
 
 (* ------------------------------------------------------------------ C07 *)
 (* obsJ = the join, obsP = apply_matcher(filter_tables(...)); scores compared after rounding *)
+(* excluded: both-empty pairs and pairs whose raw and rounded score fall on different sides of the
+   threshold, for the raw score of the join (pair_gray, in keep_rows) and for the raw score the
+   matcher computes (pair_gray_pipe) *)
+Definition pipe_excluded (c : jcase) (o : out_row) : bool :=
+  match row_pair c o with Some (l, r) => pair_gray_pipe c l r | None => false end.
+Definition keep_pipe (c : jcase) (obs : list out_row) : list out_row :=
+  filter (fun o => negb (pipe_excluded c o)) (keep_rows [c] obs).
 Definition pipeline_spec (c : jcase) (obsJ obsP : list out_row) : bool :=
-  multiset_eqb (round_rows (keep_rows [c] obsJ)) (round_rows (keep_rows [c] obsP)).
+  multiset_eqb (round_rows (keep_pipe c obsJ)) (round_rows (keep_pipe c obsP)).
 Definition pipeline_ed_spec (c : jcase) (obsJ obsP : list out_row) : bool :=
   subset_rows obsJ obsP &&
   forall_pairs c (fun l r =>
